@@ -20,6 +20,8 @@ def history(E, k, alphabet, obligations, contexts=True, sym_coef=True, with_ref=
     env.for_path(E)
     S = State()
     m = base_model(E, sym_coef=sym_coef)
+    if with_ref and k == 1:
+        m.objective_direction = E.pick("initial_direction", ["max", "min"])     # single steps also start from a minimising model
     if with_ref:
         from vlib.refmodel import Ref
         S.ref = Ref.from_model(m, {"R1": ("and", "g1", "g2"), "R2": ("or", "g1", "g3")})
